@@ -297,6 +297,12 @@ def check(ctx, base_text, u, bv, name, args, spec, bshape, encoded_base=False):
     for k, v in exp.items():
         if rv[k] != v or type(rv[k]) is not type(v):
             errs.append(f"{k}: expected {v!r} got {rv[k]!r}")
+    if "raw_path" in exp and not errs and not spec.get("origin") and not spec.get("relative") and not spec.get("relative_of_path"):
+        # raw_path reads '/' for an empty path under an authority; the STORED path (pickle state, what later derivations and
+        # relative() start from) must be carried over as it is too
+        sp_u, sp_r = guarded(lambda: u.__getstate__()[0][2]), guarded(lambda: r.__getstate__()[0][2])
+        if not is_exc(sp_u) and not is_exc(sp_r) and sp_u != sp_r and exp["raw_path"] == rv["raw_path"] == bv["raw_path"]:
+            errs.append(f"stored path: expected {sp_u!r} got {sp_r!r} (raw_path reads {rv['raw_path']!r} for both)")
     ra = guarded(lambda: r.raw_authority)
     if encoded_base:
         # a verbatim authority (e.g. ':080') need not equal its canonical re-composition, but operations that do
